@@ -146,8 +146,16 @@ def _eval_accept(ctx, case):
             ctx.count("O1:pyfloat-zero-divisor-ZeroDivisionError")
         return
     np.random.seed(case["seed"])
-    with Recorder() as rec:
-        res = bool(B.accept_metropolis(np.float64(e0), np.float64(e1)))
+    try:
+        with Recorder() as rec:
+            res = bool(B.accept_metropolis(np.float64(e0), np.float64(e1)))
+    except Exception as e:   # noqa: BLE001
+        if e1 == 0.0:
+            ctx.count("O1:accept(.,0)-raises-" + type(e).__name__)       # E_new = 0: the ratio is not defined
+        else:
+            ctx.oracle_ok(2)
+            ctx.oracle_fail("accept_metropolis:raises-" + type(e).__name__, case, {"error": repr(e)[:200]})
+        return
     draws = [e for e in rec.events if e[0] == "draw"]
     fails = []
     if e1 == 0.0:
